@@ -50,6 +50,7 @@ def run(ctx: Ctx) -> None:
     ctx.floor("T13.ramp", 6)
     ctx.floor("T13.interp-flag", 20)
     ctx.floor("T13.sample", 12)
+    ctx.floor("T13.resample", 20)
     from ..tables import t10_flow
     t10_flow.run_flow_sample(ctx)  # mechanism "vector rescaling on regridding" (FlowFields.sample)
     ctx.floor("T10x.sample", 16)
